@@ -1410,3 +1410,25 @@ fn c02_escape_roundtrip() {
     core::mem::forget(full);
     core::mem::forget(s);
 }
+
+// @harness c08_compare_ptr
+// @property C08
+// @tier quick
+// @functions DnsRecordExt::compare, DnsPointer::compare_rdata
+// @bound all classes; PTR or CNAME on each side; alias from a 2-name list
+// @oracle antisymmetry; Equal <=> class, type and alias equal; class then type decide first
+// @stubs clock(overlay)
+// @covers less, equal, greater
+#[kani::proof]
+#[kani::unwind(10)]
+fn c08_compare_ptr() {
+    set_clock(any_time());
+    let (aa, ab) = (any_name_idx(), any_name_idx());
+    let ta = if kani::any() { RRType::PTR } else { RRType::CNAME };
+    let tb = if kani::any() { RRType::PTR } else { RRType::CNAME };
+    let a = DnsPointer::new("a.local.", ta, kani::any(), 4500, NAMES[aa].to_string());
+    let b = DnsPointer::new("a.local.", tb, kani::any(), 4500, NAMES[ab].to_string());
+    check_antisym(&a, &b, aa == ab);
+    core::mem::forget(a);
+    core::mem::forget(b);
+}
